@@ -541,10 +541,14 @@ func call(i *interpreter, caller *frame, callpos token.Pos, fn value, args []val
 	switch fn := fn.(type) {
 	case *ssa.Function:
 		if fn == nil {
-			panic("call of nil function") // nil of func type
+			// nil of func type: in Go a nil pointer dereference of the target
+			panic(targetRuntimeError("invalid memory address or nil pointer dereference (call of nil func value)"))
 		}
 		return callSSA(i, caller, callpos, fn, args, nil)
 	case *closure:
+		if fn == nil {
+			panic(targetRuntimeError("invalid memory address or nil pointer dereference (call of nil func value)"))
+		}
 		return callSSA(i, caller, callpos, fn.Fn, args, fn.Env)
 	case *ssa.Builtin:
 		return callBuiltin(caller, callpos, fn, args)
@@ -554,6 +558,9 @@ func call(i *interpreter, caller *frame, callpos token.Pos, fn value, args []val
 			fr.g = caller.g
 		}
 		return fn.f(fr, args)
+	}
+	if fn == nil {
+		panic(targetRuntimeError("invalid memory address or nil pointer dereference (call of nil func value)"))
 	}
 	panic(fmt.Sprintf("cannot call %T", fn))
 }
